@@ -131,6 +131,22 @@ func tyCores() []tyCore {
 		{"oneof-string[any]", func() schema.Type {
 			return schema.NewOneOfStringSchema[any](map[string]schema.Object{"c": tyCircleObj(), "q": tySquareObj()}, "kind", false)
 		}},
+		{"object with display data", func() schema.Type {
+			dp := func(t schema.Type, d *schema.DisplayValue) *schema.PropertySchema {
+				if d == nil {
+					// (a typed nil pointer inside the Display interface is a construction error, not an input)
+					return schema.NewPropertySchema(t, nil, false, nil, nil, nil, nil, nil)
+				}
+				return schema.NewPropertySchema(t, d, false, nil, nil, nil, nil, nil)
+			}
+			return schema.NewObjectSchema("D", map[string]*schema.PropertySchema{
+				"amount": dp(schema.NewIntSchema(sp(int64(0)), sp(int64(10)), nil), schema.NewDisplayValue(nil, sp("only a description"), nil)),
+				"label":  dp(schema.NewStringSchema(sp(int64(1)), nil, nil), schema.NewDisplayValue(sp("Label"), sp("d"), sp("<svg/>"))),
+				"icon":   dp(schema.NewBoolSchema(), schema.NewDisplayValue(nil, nil, sp("<svg/>"))),
+				"bare":   dp(schema.NewIntSchema(nil, nil, nil), schema.NewDisplayValue(nil, nil, nil)),
+				"plain":  dp(schema.NewIntSchema(nil, sp(int64(5)), nil), nil),
+			})
+		}},
 		{"any", func() schema.Type { return schema.NewAnySchema() }},
 		{"oneof-int inlined struct members", tyInlinedInt},
 		{"oneof-string inlined struct members", tyInlinedStr},
@@ -191,6 +207,8 @@ func tyTargeted() []any {
 		tyCircle{R: 1}, &tyCircle{R: 1, Port: 8080, Tags: []string{"a"}}, tyCircle{R: 1, Tags: []string{}}, tySquare{S: 2}, &tySquare{S: 2, Backlog: &u, Small: 9, Narrow: -3, Labels: map[string]int64{"a": 1}},
 		tySquare{S: 2, Labels: map[string]int64{}}, tyTriangle{A: 1}, &tyTriangle{A: 1}, (*tyCircle)(nil), []tyCircle{{R: 1}}, map[string]tyCircle{"a": {R: 1}},
 		map[string]int64{"a": 1}, map[string]any{"a": int64(1)}, map[int64]string{1: "a"},
+		map[string]any{"amount": 1000}, map[string]any{"amount": "x", "label": "l"}, map[string]any{"label": ""}, map[string]any{"icon": "maybe"},
+		map[string]any{"bare": []any{}}, map[string]any{"plain": 9}, map[string]any{"amount": 3, "label": "ok", "icon": true, "bare": 1, "plain": 2},
 		map[string]any{"kind": 0, "reason": "done"}, map[string]any{"kind": int64(1), "speed": 3}, map[string]any{"kind": "0", "reason": "r"},
 		map[string]any{"kind": uint64(0)}, map[string]any{"kind": 0.0, "reason": "x"}, map[string]any{"kind": "", "reason": "done"},
 		map[string]any{"kind": "go", "speed": 5}, map[string]any{"kind": 2}, tyStop{Reason: "s"}, &tyGo{Kind: 1, Speed: 2}, tyStopS{}, tyGoS{Kind: "go"},
@@ -207,6 +225,7 @@ func groupTyped(s *sink, g *hx.Gen) {
 	groupTypedAPI(s, g)
 	groupTypedPaths(s, g)
 	groupStepOutput(s, g)
+	groupTypedRules(s, g)
 	cores := tyCores()
 	wraps := tyWraps()
 	core := cores[g.R.Intn(len(cores))]
@@ -582,6 +601,112 @@ func groupStepOutput(s *sink, g *hx.Gen) {
 			}
 			if oa.err != ob.err || goCanon(oa.v) != goCanon(ob.v) {
 				s.finding(Finding{Prop: "C01", What: p.name + " of a step output schema differs from its scope's", Detail: []string{desc, goCanon(oa.v), goCanon(ob.v)}})
+			}
+		}
+	}
+}
+
+// ---------------------------------------------------------------------------------------------
+// struct-mapped objects with presence rules on treat-empty-as-default fields: an empty field counts as
+// ABSENT, for Validate and Serialize alike; both must agree with the rules evaluated on that presence.
+
+type tyRuled struct {
+	A string `json:"a"`
+	B *bool  `json:"b"`
+	C int64  `json:"c"`
+}
+
+func groupTypedRules(s *sink, g *hx.Gen) {
+	type rule struct {
+		on, kind, ref string
+	}
+	names := []string{"a", "b", "c"}
+	var rules []rule
+	for k := 0; k < 1+g.R.Intn(2); k++ {
+		i := g.R.Intn(3)
+		j := (i + 1 + g.R.Intn(2)) % 3
+		rules = append(rules, rule{names[i], []string{"required_if", "required_if_not", "conflicts"}[g.R.Intn(3)], names[j]})
+	}
+	mk := func(name string, t schema.Type, treatEmpty bool) *schema.PropertySchema {
+		var rif, rifn, conf []string
+		for _, r := range rules {
+			if r.on == name {
+				switch r.kind {
+				case "required_if":
+					rif = append(rif, r.ref)
+				case "required_if_not":
+					rifn = append(rifn, r.ref)
+				default:
+					conf = append(conf, r.ref)
+				}
+			}
+		}
+		p := schema.NewPropertySchema(t, nil, false, rif, rifn, conf, nil, nil)
+		if treatEmpty {
+			p = p.TreatEmptyAsDefaultValue()
+		}
+		return p
+	}
+	var sch *schema.ObjectSchema
+	if r := hx.Guard(func() hx.Result {
+		sch = schema.NewStructMappedObjectSchema[tyRuled]("Ruled", map[string]*schema.PropertySchema{
+			"a": mk("a", schema.NewStringSchema(nil, nil, nil), true),
+			"b": mk("b", schema.NewBoolSchema(), false),
+			"c": mk("c", schema.NewIntSchema(nil, nil, nil), true),
+		})
+		return hx.Result{R: "ok"}
+	}); r.R != "ok" {
+		s.finding(Finding{Prop: "C04", What: "constructing a struct-mapped object with presence rules panicked: " + r.Msg})
+		return
+	}
+	tr := true
+	for _, a := range []string{"", "x"} {
+		for _, b := range []*bool{nil, &tr} {
+			for _, c := range []int64{0, 5} {
+				v := tyRuled{A: a, B: b, C: c}
+				present := map[string]bool{"a": a != "", "b": b != nil, "c": c != 0}
+				want := true
+				for _, n := range names {
+					var rif, rifn, conf []string
+					for _, r := range rules {
+						if r.on == n {
+							switch r.kind {
+							case "required_if":
+								rif = append(rif, r.ref)
+							case "required_if_not":
+								rifn = append(rifn, r.ref)
+							default:
+								conf = append(conf, r.ref)
+							}
+						}
+					}
+					anyOf := func(l []string) bool {
+						for _, x := range l {
+							if present[x] {
+								return true
+							}
+						}
+						return false
+					}
+					if !present[n] && (anyOf(rif) || (len(rifn) > 0 && !anyOf(rifn))) {
+						want = false
+					}
+					if present[n] && anyOf(conf) {
+						want = false
+					}
+				}
+				var verr, serr error
+				r := hx.Guard(func() hx.Result { verr = sch.Validate(v); _, serr = sch.Serialize(v); return hx.Result{R: "ok"} })
+				s.stats["typedrules"]++
+				desc := fmt.Sprintf("rules %v, value {A:%q B:%v C:%d}", rules, a, b != nil, c)
+				switch {
+				case r.R == "panic":
+					s.finding(Finding{Prop: "C04", What: "Validate / Serialize of a struct-mapped object panicked: " + r.Msg, Detail: []string{desc}})
+				case (verr == nil) != (serr == nil):
+					s.finding(Finding{Prop: "C03", What: fmt.Sprintf("struct-mapped object: Validate (%v) and Serialize (%v) apply different presence rules", verr, serr), Detail: []string{desc}})
+				case (verr == nil) != want:
+					s.finding(Finding{Prop: "C03", What: fmt.Sprintf("struct-mapped object: accepted=%v, the declared presence rules say %v (%v)", verr == nil, want, verr), Detail: []string{desc}})
+				}
 			}
 		}
 	}
